@@ -148,7 +148,9 @@ class Driver:
         raw = proc.stdout.read()
         t.join()
         proc.wait()
-        lines = raw.decode().splitlines()
+        lines = raw.decode().split("\n")   # not splitlines(): U+0085 / U+2028 inside strings are not line ends
+        if lines and lines[-1] == "":
+            lines.pop()
         if len(lines) != len(requests):
             raise RuntimeError(
                 f"driver answered {len(lines)} of {len(requests)} requests (exit {proc.returncode})"
